@@ -5,7 +5,10 @@
 set -u
 ROOT=$(cd "$(dirname "$0")/.." && pwd); cd "$ROOT"
 export VERIF_FLAVOUR=cov VERIF_BUILD=/dev/shm/verif-cov/build VERIF_OUT=/dev/shm/verif-cov/out
-mkdir -p $VERIF_BUILD $VERIF_OUT
+rm -rf /dev/shm/verif-cov; mkdir -p $VERIF_BUILD $VERIF_OUT
+# a frozen copy of the committed library source: edits of /repo during the audit would invalidate the counters
+git -C /repo worktree add -q --detach /dev/shm/verif-cov/src HEAD
+export VERIF_REPO=/dev/shm/verif-cov/src
 PROPS=${*:-C01 C02 C03 C04 C05 C06 C07 C08 C09 C10 C11 C12 C13 C14 C15 C16 C17 C18 C19 C20}
 for p in $PROPS; do ./check $p --tier quick 2>&1 | tail -1 | cut -c1-200; done
 cd $VERIF_BUILD/cov
@@ -13,3 +16,4 @@ cd $VERIF_BUILD/cov
 find . -name '*.gcda' | while read g; do d=$(dirname $g); (cd $d && gcov -f -p -b $(basename $g) 2>/dev/null); done > /dev/shm/verif-cov/gcov-f.txt
 python3 "$ROOT/scripts/coverage_report.py" /dev/shm/verif-cov/gcov-f.txt > "$ROOT/notes/coverage-unreached.txt"
 tail -5 "$ROOT/notes/coverage-unreached.txt"
+git -C /repo worktree remove --force /dev/shm/verif-cov/src; git -C /repo worktree prune
